@@ -80,7 +80,7 @@ from genjax.pjax import (
 # Internal JAX utilities used by the ADEV interpreter.
 from jax._src import util as jax_util
 from jax.extend import source_info_util as src_util
-from jax.extend.core import Jaxpr, Var, jaxpr_as_fun
+from jax.extend.core import ClosedJaxpr, Jaxpr, Var, jaxpr_as_fun
 from jax.interpreters import ad as jax_autodiff
 from jaxtyping import ArrayLike
 
@@ -152,6 +152,63 @@ def _instantiate_zero_tangents(tree):
 def _zero_tangent_like(v):
     """Construct a zero tangent with the correct tangent dtype for ``v``."""
     return jax_autodiff.instantiate_zeros(jax_autodiff.Zero.from_primal_value(v))
+
+
+# Call-like primitives whose body can be evaluated in place of the call.
+_INLINED_CALLS = ("pjit", "jit", "remat2", "checkpoint")
+
+
+def _holds_sample_site(params) -> bool:
+    """Whether a sub-Jaxpr held by an equation's `params` binds a sampling site."""
+    stack = list(params.values())
+    while stack:
+        v = stack.pop()
+        if isinstance(v, (tuple, list)):
+            stack.extend(v)
+            continue
+        if isinstance(v, ClosedJaxpr):
+            v = v.jaxpr
+        if not isinstance(v, Jaxpr):
+            continue
+        for eqn in v.eqns:
+            primitive, _ = PPPrimitive.unwrap(eqn.primitive)
+            if primitive in (adev_sample_p, sample_p):
+                return True
+            stack.extend(eqn.params.values())
+    return False
+
+
+def _is_site_call(eqn) -> bool:
+    primitive, _ = PPPrimitive.unwrap(eqn.primitive)
+    return primitive.name in _INLINED_CALLS and _holds_sample_site(eqn.params)
+
+
+def _eval_inlining_site_calls(jaxpr: Jaxpr, consts, *args):
+    """Evaluate `jaxpr`, evaluating the body of every nested jax.jit / jax.checkpoint
+    call that binds a sampling site in place of the call.
+
+    The ADEV interpreter gives a site its estimator semantics only when it meets
+    the site as an equation of the Jaxpr it interprets; a site hidden in the body
+    of a call equation would be differentiated by JAX's rule for the call instead.
+    """
+    env = Environment()
+    jax_util.safe_map(env.write, jaxpr.constvars, consts)
+    jax_util.safe_map(env.write, jaxpr.invars, args)
+    for eqn in jaxpr.eqns:
+        in_vals = jax_util.safe_map(env.read, eqn.invars)
+        if _is_site_call(eqn):
+            body = eqn.params["jaxpr"]
+            if isinstance(body, ClosedJaxpr):
+                outs = _eval_inlining_site_calls(body.jaxpr, body.consts, *in_vals)
+            else:
+                outs = _eval_inlining_site_calls(body, [], *in_vals)
+        else:
+            subfuns, params = eqn.primitive.get_bind_params(eqn.params)
+            outs = eqn.primitive.bind(*subfuns, *in_vals, **params)
+            if not eqn.primitive.multiple_results:
+                outs = [outs]
+        jax_util.safe_map(env.write, eqn.outvars, outs)
+    return jax_util.safe_map(env.read, jaxpr.outvars)
 
 
 ###################
@@ -665,7 +722,13 @@ class ADEV(Pytree):
     def forward_mode(f, kont=lambda v: v):
         def _inner(*duals: DualTree):
             primals = Dual.tree_primal(duals)
-            closed_jaxpr, (_, _, out_tree) = stage(f)(*primals)
+            closed_jaxpr, (flat_primals, _, out_tree) = stage(f)(*primals)
+            if any(_is_site_call(eqn) for eqn in closed_jaxpr.jaxpr.eqns):
+                closed_jaxpr, _ = stage(
+                    lambda *flat: _eval_inlining_site_calls(
+                        closed_jaxpr.jaxpr, closed_jaxpr.literals, *flat
+                    )
+                )(*flat_primals)
             jaxpr, consts = closed_jaxpr.jaxpr, closed_jaxpr.literals
             dual_leaves = Dual.tree_leaves(Dual.tree_pure(duals))
             out_duals = ADEV.eval_jaxpr_adev(
